@@ -31,7 +31,7 @@ VARIABLES hinit,     \* [holder -> BOOLEAN]           is_initialized
           hlog,      \* [holder -> BOOLEAN]           a logger is attached to the holder
           heh,       \* [holder -> BOOLEAN]           an error handler is attached to the holder
           att,       \* [holder -> Seq(emitter)]      attached emitters in attach order
-          em,        \* [emitter -> [alive, code, ownlog, owneh, used]]
+          em,        \* [emitter -> [alive, code, ownlog, owneh, used, cursec]]   cursec: 0 = .text, 1 = a user section (Assembler)
           gen,       \* [holder -> Seq(<<kind, prog>>)]  generated since the last (re)init
           kinds,     \* Seq(kind) - fixed per execution
           hist       \* exploration only: the calls made so far (script format)
@@ -40,7 +40,7 @@ mvars == <<hinit, hlog, heh, att, em, gen, kinds>>
 H == 1 .. NH
 E == 1 .. Len(kinds)
 
-FreshEm == [alive |-> TRUE, code |-> 0, ownlog |-> FALSE, owneh |-> FALSE, used |-> FALSE]
+FreshEm == [alive |-> TRUE, code |-> 0, ownlog |-> FALSE, owneh |-> FALSE, used |-> FALSE, cursec |-> 0]
 
 MInit(ks) == /\ hinit = [h \in H |-> FALSE]
              /\ hlog = [h \in H |-> FALSE]
@@ -51,7 +51,10 @@ MInit(ks) == /\ hinit = [h \in H |-> FALSE]
              /\ gen = [h \in H |-> <<>>]
 
 Rank(k) == CASE k = "asm" -> 0 [] k = "builder" -> 1 [] OTHER -> 2
-ProgRank(p) == IF p <= 2 THEN 0 ELSE IF p = 3 THEN 1 ELSE 2
+(* programs: 1,2 assembler level; 3 node edits; 4..6 compiler functions; 7 = emits at the current position, then moves to a  *)
+(* user section and STAYS there; 8 = unfinished emission (Builder cursor in the middle / Compiler function left open), *)
+(* never finalized                                                                                                      *)
+ProgRank(p) == IF p <= 2 \/ p = 7 THEN 0 ELSE IF p = 3 \/ p = 8 THEN 1 ELSE 2
 Remove(s, x) == SelectSeq(s, LAMBDA y : y # x)
 Rev(s) == [i \in 1 .. Len(s) |-> s[Len(s) + 1 - i]]
 
@@ -66,7 +69,7 @@ Init(h) == IF InitOk(h)
              ELSE UNCHANGED mvars
 
 (* reset(soft|hard): detaches every emitter, forgets environment, logger, handler, contents. Never fails. *)
-DetachAllOf(h) == [e \in DOMAIN em |-> IF em[e].code = h THEN [em[e] EXCEPT !.code = 0, !.used = FALSE] ELSE em[e]]
+DetachAllOf(h) == [e \in DOMAIN em |-> IF em[e].code = h THEN [em[e] EXCEPT !.code = 0, !.used = FALSE, !.cursec = 0] ELSE em[e]]
 ResetH(h) == IF hinit[h]
                THEN /\ hinit' = [hinit EXCEPT ![h] = FALSE]
                     /\ hlog' = [hlog EXCEPT ![h] = FALSE]
@@ -81,21 +84,21 @@ ResetH(h) == IF hinit[h]
 ReinitOk(h) == hinit[h]
 Reinit(h) == IF ReinitOk(h)
                THEN /\ gen' = [gen EXCEPT ![h] = <<>>]
-                    /\ em' = [e \in DOMAIN em |-> IF em[e].code = h THEN [em[e] EXCEPT !.used = FALSE] ELSE em[e]]
+                    /\ em' = [e \in DOMAIN em |-> IF em[e].code = h THEN [em[e] EXCEPT !.used = FALSE, !.cursec = 0] ELSE em[e]]
                     /\ UNCHANGED <<hinit, hlog, heh, att, kinds>>
                ELSE UNCHANGED mvars
 
 AttachOk(e, h) == em[e].alive /\ hinit[h] /\ em[e].code \in {0, h}
 Attach(e, h) == IF AttachOk(e, h) /\ em[e].code = 0
                   THEN /\ att' = [att EXCEPT ![h] = Append(@, e)]
-                       /\ em' = [em EXCEPT ![e].code = h, ![e].used = FALSE]
+                       /\ em' = [em EXCEPT ![e].code = h, ![e].used = FALSE, ![e].cursec = 0]
                        /\ UNCHANGED <<hinit, hlog, heh, gen, kinds>>
                   ELSE UNCHANGED mvars
 
 DetachOk(e, h) == em[e].alive /\ em[e].code = h
 Detach(e, h) == IF DetachOk(e, h)
                   THEN /\ att' = [att EXCEPT ![h] = Remove(@, e)]
-                       /\ em' = [em EXCEPT ![e].code = 0, ![e].used = FALSE]
+                       /\ em' = [em EXCEPT ![e].code = 0, ![e].used = FALSE, ![e].cursec = 0]
                        /\ UNCHANGED <<hinit, hlog, heh, gen, kinds>>
                   ELSE UNCHANGED mvars
 
@@ -112,7 +115,7 @@ GenLegal(e, p) == /\ em[e].alive /\ em[e].code # 0 /\ hinit[em[e].code] /\ ~Seal
                   /\ Rank(kinds[e]) >= ProgRank(p)
                   /\ (kinds[e] = "asm" \/ ~em[e].used)
 Gen(e, p) == /\ gen' = [gen EXCEPT ![em[e].code] = Append(@, <<kinds[e], p>>)]
-             /\ em' = [em EXCEPT ![e].used = TRUE]
+             /\ em' = [em EXCEPT ![e].used = TRUE, ![e].cursec = IF kinds[e] = "asm" /\ p = 7 THEN 1 ELSE 0]
              /\ UNCHANGED <<hinit, hlog, heh, att, kinds>>
 
 (* Seal(h): what JitRuntime::add does with a finished holder - flatten, resolve cross-section references, relocate. *)
@@ -134,7 +137,7 @@ Create(e) == /\ em' = [em EXCEPT ![e] = FreshEm]
 (* destruction of all holders (end of an execution): every emitter is detached *)
 DestroyHolders == /\ hinit' = [h \in H |-> FALSE] /\ hlog' = [h \in H |-> FALSE] /\ heh' = [h \in H |-> FALSE]
                   /\ att' = [h \in H |-> <<>>] /\ gen' = [h \in H |-> <<>>]
-                  /\ em' = [e \in DOMAIN em |-> [em[e] EXCEPT !.code = 0, !.used = FALSE]]
+                  /\ em' = [e \in DOMAIN em |-> [em[e] EXCEPT !.code = 0, !.used = FALSE, !.cursec = 0]]
                   /\ UNCHANGED kinds
 
 (* ------------------------------------------------------------------------------ *)
@@ -165,6 +168,12 @@ HolderOK(h, o, fh, archid) ==
 PrivEq(k, a, b, relaxJa) == IF relaxJa /\ k = "compiler"
                               THEN Len(a) = Len(b) /\ \A i \in 1 .. Len(b) : i = 8 \/ a[i] = b[i]
                               ELSE a = b
+(* an attached Assembler: priv = <<current section id, stale buffer pointers?, cursor>>.  It is in .text unless its   *)
+(* last program left it in a user section; a freshly attached or reinitialised one is at offset 0 of an empty holder *)
+AsmPrivOK(e, pv) == /\ Len(pv) = 3
+                    /\ (IF em[e].cursec = 0 THEN pv[1] = 0 ELSE pv[1] >= 1)
+                    /\ pv[2] = 0
+                    /\ (gen[em[e].code] = <<>> => pv[3] = 0)
 EmitterOK(e, o, fe, archid, relaxEh, relaxJa) ==
   IF ~em[e].alive THEN ~o.alive
   ELSE /\ o.alive
@@ -175,7 +184,8 @@ EmitterOK(e, o, fe, archid, relaxEh, relaxJa) ==
        /\ (relaxEh \/ (o.eh = EffEh(e) /\ o.owneh = em[e].owneh))
        /\ o.prev = PrevOf(e) /\ o.next = NextOf(e)
        /\ (em[e].code = 0 => PrivEq(kinds[e], o.priv, fe[KindIx(kinds[e])][1], relaxJa))
-       /\ (em[e].code # 0 /\ ~em[e].used => PrivEq(kinds[e], o.priv, fe[KindIx(kinds[e])][2], relaxJa))
+       /\ (em[e].code # 0 /\ ~em[e].used /\ kinds[e] # "asm" => PrivEq(kinds[e], o.priv, fe[KindIx(kinds[e])][2], relaxJa))
+       /\ (em[e].code # 0 /\ kinds[e] = "asm" => AsmPrivOK(e, o.priv))
 
 (* ------------------------------------------------------------------------------ *)
 (* Invariants of the abstract machine (checked by TLC on the explored state space)  *)
@@ -188,17 +198,17 @@ AttachListWellFormed ==
   /\ \A h1, h2 \in H : h1 # h2 => \A i \in 1 .. Len(att[h1]) : \A j \in 1 .. Len(att[h2]) : att[h1][i] # att[h2][j]
 UninitIsEmpty == \A h \in H : ~hinit[h] => att[h] = <<>> /\ gen[h] = <<>> /\ (\A e \in E : em[e].code # h)
 DeadIsBlank == \A e \in E : ~em[e].alive => em[e] = [FreshEm EXCEPT !.alive = FALSE]
-DetachedIsClean == \A e \in E : em[e].code = 0 => ~em[e].used
+DetachedIsClean == \A e \in E : em[e].code = 0 => ~em[e].used /\ em[e].cursec = 0
 AbstractInv == AttachListWellFormed /\ UninitIsEmpty /\ DeadIsBlank /\ DetachedIsClean
 
 (* model-level statements of the property: Reset brings the abstract holder to its initial value, Reinit to the  *)
 (* value right after Init with the same emitters, all clean                                                      *)
 ResetIsInitM == [][\A h \in H : (hinit[h] /\ ~hinit'[h]) =>
                       /\ att'[h] = <<>> /\ gen'[h] = <<>> /\ ~hlog'[h] /\ ~heh'[h]
-                      /\ \A e \in E : em[e].code = h => em'[e].code = 0 /\ ~em'[e].used]_mvars
+                      /\ \A e \in E : em[e].code = h => em'[e].code = 0 /\ ~em'[e].used /\ em'[e].cursec = 0]_mvars
 ReinitIsFreshM == [][\A h \in H : (hinit[h] /\ hinit'[h] /\ gen[h] # <<>> /\ gen'[h] = <<>>) =>
                       /\ att'[h] = att[h] /\ hlog'[h] = hlog[h] /\ heh'[h] = heh[h]
-                      /\ \A e \in E : em'[e].code = h => ~em'[e].used]_mvars
+                      /\ \A e \in E : em'[e].code = h => ~em'[e].used /\ em'[e].cursec = 0]_mvars     \* every emitter back in .text, nothing pending
 
 (* ------------------------------------------------------------------------------ *)
 (* Exploration                                                                      *)
